@@ -66,7 +66,7 @@ def _ops(word):
             elif l == "ctrlRY":
                 qp.ctrl(qp.RY(0.3, 1), control=0)
             elif l == "SPmid":
-                qp.StatePrep(np.array([0.6, 0.8j]), wires=[2])
+                qp.StatePrep(np.array([0.6, 0.8j]), wires=[3])  # own wire: a mid-circuit preparation is only defined on |0>
             elif l == "Snap":
                 qp.Snapshot("s%d" % i)
             elif l == "Barrier":
@@ -153,6 +153,8 @@ def check(spec):
     if not static:
         static = [0]
     full = list(range(max(static) + 1)) if static else [0]
+    if "SPmid" in word and word.count("SPmid") > 1:
+        return skip("harness: two preparations on the same wire are not a defined circuit")
     dev_wires = {"none": None, "exact": full, "superset": full + ["aux1", "aux2"], "toofew": full[:-1] or None}[wsel]
     if devname == "default.tensor":
         if dev_wires is None:
@@ -186,9 +188,7 @@ def check(spec):
     changed = len(batch) != 1 or [o.name for o in batch[0].operations] != [o.name for o in tape.operations]
     if shots is not None or devname == "null.qubit":
         return ok(outcome=["executed", devname, len(batch)], nontrivial=changed)
-    order = dev_wires if dev_wires is not None else sorted(static)
-    if dev_wires is None and any(o.name == "Allocate" for o in ops):
-        order = sorted(static)
+    order = dev_wires if dev_wires is not None else [w for w in tape.wires if isinstance(w, int)]
     ref = _reference(ops, ms, order if mname == "state" else full)
     if ref is None:
         return ok(outcome=["no-reference", devname], nontrivial=changed)
